@@ -184,7 +184,7 @@ func init() {
 		return sx.L(out...)
 	})
 	// setrt: (sys text (probe...) table) ->
-	//   ("err") | ("ok" str1 R (row...)), R = ("err") | ("ok" str2 simple2 dump2)
+	//   ("err") | ("ok" str1 R (row...) dump1), R = ("err") | ("ok" str2 simple2 dump2)
 	// row = ("verr") | (origIncl rtIncl origExcl rtExcl), rt = -1 when R is err.
 	register("setrt", func(a sx.V) sx.V {
 		sys := sysOf(a.Nth(0))
@@ -214,6 +214,6 @@ func init() {
 			}
 			rows = append(rows, sx.L(sx.Int(csBit(c.MatchVersionPrerelease(p.v))), sx.Int(ri), sx.Int(csBit(c.MatchVersion(p.v))), sx.Int(re)))
 		}
-		return sx.L(sx.Sym("ok"), sx.B(s1), r, sx.L(rows...))
+		return sx.L(sx.Sym("ok"), sx.B(s1), r, sx.L(rows...), rawSx(semver.VerifDumpSet(c.Set())))
 	})
 }
